@@ -59,7 +59,7 @@ CLAIMS.update({
 CLAIMS.update({
  'C08': ('generation counter only grows, token/range/id guards agree over at/update/free and free-list threading, pooled types never new/delete (whole program) with '
          'one placement-new / one destructor per alloc/free, Fd reference-count pairing and close marking, no deferred task captures a still-registered managed pointer '
-         '(whole program), foreach hands callbacks the live cell\'s pointer, Cabinet::free never moves or releases the cell array, ObjectPool::alloc reaches no destructor, sentinel agreement by folding (token id 0, descriptor -1|0)', '§4 C08', 'type rules + guard/pairing path rules over clang AST/CFG (templates via explicit instantiation TU)'),
+         '(whole program), foreach hands callbacks the live cell\'s pointer, Cabinet::free never moves or releases the cell array, ObjectPool::alloc reaches no destructor, sentinel agreement by folding (token id 0, descriptor -1|0), every history of the cabinet of up to 5 (thorough: 6) operations replayed on its syntax trees against a reference map (stale, null and forged tokens; at/free/update act exactly on live tokens; no token issued twice; size(); no vector access outside the cell array)', '§4 C08, §10.7', 'type rules + guard/pairing path rules over clang AST/CFG (templates via explicit instantiation TU)'),
  'C17': ('lifecycle propagation matrix over every composite and child field (delete/reset/install/ready/stop-pause-resume), base-hook must-call on every override, '
          'notifications only as cancellable deferred tasks cancelled by stop/reset/destructor, base lifecycle gates and single onFinal, held-back child results in '
          'serial composites, stop propagation not filtered by a running-test, reset loops range over all children, the held-back test answers \'act\' only while running, leaf resource matrix (events an action arms are disarmed on stop/reset/pause), reset-before-rerun, child look-ups only under i < size and child loops over exactly 0..size-1 (finite folding), repeat count-down replayed, replay fidelity of held-back results (closure re-enters the handler with its own unmodified parameters, nothing applied before the held-back test), every run armed with the configured time-out', '§4 C17', 'sibling-agreement matrix + must-call/path rules over clang AST/CFG'),
@@ -78,7 +78,7 @@ CLAIMS['C07'] = ('index arithmetic of the byte buffer decided by linear constant
                  'postcondition (room >= n, readable length unchanged); append/fetch reserve-copy-commit and min-copy-consume shapes; copy independence incl. self-assignment alias safety; strong guarantee on allocation failure (nothing released or overwritten before a throwing new[]); postconditions of the primitives (hasWritten/hasRead/hasReadAll, the four accessors); no unsigned wrap-around in any sum, doubling or difference (the assumption under which the proofs reason over the integers, discharged per operation). FIFO equality '
                  'of contents as a history property stays undecided', '§10.6 (replaces the not-applicable of §5)',
                  'linear (affine) constant propagation + sign decision over chain slacks, on the clang CFG')
-FOLDING = {'C02', 'C03', 'C05', 'C06', 'C08', 'C09', 'C10', 'C12', 'C13', 'C14', 'C15', 'C17', 'C18', 'C19', 'C20'}
+FOLDING = {'C02', 'C03', 'C04', 'C05', 'C06', 'C08', 'C09', 'C10', 'C12', 'C13', 'C14', 'C15', 'C17', 'C18', 'C19', 'C20'}
 NA = {
  'C07_old': 'every clause is value-level (byte equality, index arithmetic of the three-way space policy): needs a relational numeric domain or a solver, '
         'outside the static-analysis family as available here (DESIGN.md §5)',
